@@ -38,8 +38,10 @@ def target_class(modname: str):
     return None
 
 
-def option_matrix(tier: str, rng) -> typing.List[typing.Tuple[str, dict]]:
-    """(module, options) per build.  quick: a covering handful; thorough: the full matrix of DESIGN 5 C01."""
+def option_matrix(tier: str, rng, no_float: bool = False) -> typing.List[typing.Tuple[str, dict]]:
+    """(module, options) per build.  quick: a covering handful; thorough: the full matrix of DESIGN 5 C01 plus the strata
+    enable_override_variable_array_capacity (capacities left at their defaults: behaviour must not change) and - for a
+    float-free namespace (no_float) - omit_float_serialization_support."""
     c_all = [{'target_endianness': e, 'enable_serialization_asserts': a} for e in ('any', 'little', 'big') for a in (False, True)]
     cpp_all = [{'target_endianness': e, 'enable_serialization_asserts': a, 'std': s}
                for s in ('c++14', 'c++17', 'c++20', 'c++17-pmr') for e in ('any', 'little', 'big') for a in (False, True)]
@@ -60,6 +62,15 @@ def option_matrix(tier: str, rng) -> typing.List[typing.Tuple[str, dict]]:
         out += [('target_cpp', o) for o in cpp_all]
         out += [('target_cpp', {'target_endianness': 'any', 'std': 'c++17', 'sanitize': True})]
         out += [('target_py', {})]
+        out += [('target_c', {'target_endianness': 'any', 'enable_override_variable_array_capacity': True}),
+                ('target_c', {'target_endianness': 'little', 'enable_serialization_asserts': True,
+                              'enable_override_variable_array_capacity': True}),
+                ('target_cpp', {'target_endianness': 'any', 'std': 'c++17', 'enable_override_variable_array_capacity': True})]
+        if no_float:
+            out += [('target_c', {'target_endianness': 'any', 'omit_float_serialization_support': True}),
+                    ('target_c', {'target_endianness': 'little', 'enable_serialization_asserts': True,
+                                  'omit_float_serialization_support': True, 'enable_override_variable_array_capacity': True}),
+                    ('target_cpp', {'target_endianness': 'any', 'std': 'c++17', 'omit_float_serialization_support': True})]
     return out
 
 
@@ -467,8 +478,9 @@ def run(chk: core.Check, direction: str, generators: typing.List[str], trusted: 
         if not ok_model:
             break
         work = core.scratch('c01codec-')
-        spec = dsdlgen.generate(chk.rng, n_types=sizes['n_types'])
-        spec['files'].update(load_corpus()['files'])
+        no_float = chk.tier == 'thorough' and rnd == rounds - 1        # last thorough round: omit_float_serialization_support
+        spec = dsdlgen.generate(chk.rng, n_types=sizes['n_types'], no_float=no_float)
+        spec['files'].update({k: v for k, v in load_corpus()['files'].items() if not (no_float and 'float' in v)})
         prep = prepare(spec, work, exe)
         db = prep.db
         tids = db.ids()
@@ -560,7 +572,7 @@ def run(chk: core.Check, direction: str, generators: typing.List[str], trusted: 
                 break
 
         # 3. correspondence with the real generated code
-        matrix = option_matrix(chk.tier, chk.rng)
+        matrix = option_matrix(chk.tier, chk.rng, no_float)
         build_targets(prep, matrix, core.REPO)
         stats['unavailable_targets'] = sorted(set(stats['unavailable_targets']) | set(prep.unavailable))
         for lab, logtxt in prep.build_failures:
